@@ -75,7 +75,8 @@ func ValidateAggregateAndProof(ctx context.Context, signedAgg *phase0.SignedAggr
 
 	// [IGNORE] The block being voted for (aggregate.data.beacon_block_root) has been seen (via both gossip and non-gossip sources)
 	// (a client MAY queue aggregates for processing once block is retrieved).
-	if _, ok := ch.ByBlock(att.Data.BeaconBlockRoot); !ok {
+	blockRef, ok := ch.ByBlock(att.Data.BeaconBlockRoot)
+	if !ok {
 		return nil, GossipValidatorResult{IGNORE, errors.New("aggregate voted for unknown block")}
 	}
 
@@ -85,6 +86,14 @@ func ValidateAggregateAndProof(ctx context.Context, signedAgg *phase0.SignedAggr
 		return nil, GossipValidatorResult{IGNORE, errors.New("unknown block and/or target, cannot check if in subtree")}
 	} else if !inSubtree {
 		return nil, GossipValidatorResult{REJECT, errors.New("block not in subtree of target")}
+	}
+	// target epoch was already validated to match the slot, which was validated to be within normal range. No overflows.
+	startSlot, _ := spec.EpochStartSlot(att.Data.Target.Epoch)
+	// Being an ancestor is not enough: the target must be the last block at or before the start of the target epoch.
+	if checkpointRoot, err := CheckpointBlockRoot(ctx, spec, blockRef, att.Data.BeaconBlockRoot, startSlot); err != nil {
+		return nil, GossipValidatorResult{IGNORE, fmt.Errorf("cannot determine the checkpoint block of the vote: %w", err)}
+	} else if checkpointRoot != att.Data.Target.Root {
+		return nil, GossipValidatorResult{REJECT, fmt.Errorf("target %s is not the checkpoint block %s of the vote", att.Data.Target.Root, checkpointRoot)}
 	}
 
 	// [REJECT] The current finalized_checkpoint is an ancestor of the block defined
@@ -109,9 +118,6 @@ func ValidateAggregateAndProof(ctx context.Context, signedAgg *phase0.SignedAggr
 	// i.e. aggregate_and_proof.aggregator_index in get_beacon_committee(state, aggregate.data.slot, aggregate.data.index).
 	// [REJECT] The aggregate_and_proof.selection_proof is a valid signature of the aggregate.data.slot
 	// by the validator with index aggregate_and_proof.aggregator_index.
-
-	// target epoch was already validated to match the slot, which was validated to be within normal range. No overflows.
-	startSlot, _ := spec.EpochStartSlot(att.Data.Target.Epoch)
 
 	towardsCtx, cancel := context.WithTimeout(ctx, catchupTimeout)
 	defer cancel()
